@@ -7,6 +7,7 @@ import gen
 from check_c01 import okoc
 from vlib import lit, ref, tmap
 
+FOREACH_GATES = ['foreach.enable.beforeRecv', 'foreach.execute.beforeRecv', 'foreach.item.beforeExecute', 'wf.handler.beforeLock', 'ev:SProv', 'ev:SSet']
 GATES = ['wf.main.beforeKickoff', 'wf.main.beforeSelect', 'wf.handler.beforeLock', 'wf.failure.beforeLock', 'wf.det.beforeLock',
          'plugin.deploy.beforeTry', 'plugin.deploy.beforeWait', 'plugin.deploy.afterMiss', 'plugin.deploy.beforeDeploy', 'plugin.enable.beforeRecv',
          'plugin.enable.afterRecv', 'plugin.start.beforeRecv', 'plugin.start.beforeReadSchema', 'plugin.exec.afterResult',
@@ -62,6 +63,16 @@ def extra(ctx):
                         sch = {'stalls': [{'point': gate, 'step': st, 'nth': nth, 'ms': rng.choice([80, 120])}]}
                         items.append({'wf': wf, 'oc': oc, 'script': script, 'input': inp, 'schedule': sch, 'extra': {'timeout_ms': 15000},
                                       'stall': '%s@%s#%d' % (gate, st, nth)})
+        # a loop step that gets its items after it entered its execute stage, delayed at its own synchronisation points
+        import check_c13
+        for gate in FOREACH_GATES:
+            for nth in ([1] if ctx.quick else [1, 2, 3]):
+                it = check_c13.loop_item(rng, 2, 2, ['success', 'success'], delays=[2, 2], after_ms=40)
+                it.pop('expect_items', None)
+                it['schedule'] = {'stalls': [{'point': gate, 'step': 'loop', 'nth': nth, 'ms': rng.choice([80, 120])}]}
+                it['stall'] = '%s@loop#%d' % (gate, nth)
+                it['want'] = ['success']
+                items.append(it)
         # two-site schedules for the slow-deployment shape: the kick-off is held back so that the step's first look at its
         # deploy input misses, then the step is held between that miss and publishing "waiting" while the kick-off provides
         wf, oc, script, steps = sh[-1]
